@@ -10,7 +10,7 @@ Driver for the routing model (C23).  Requests (one per line):
                    -> ok | viol <clause number>
 
   items := item(,item)*        item := <tok>:<sep>
-  tok   := W<hex> | S<2 hex digits of the delimiter><hex or -> | Y<2 hex digits> | L<hex or -> (// comment) | B<hex or -> (/* comment */)
+  tok   := W<hex> | S<2 hex digits of the delimiter><hex or -> | E<2 hex digits><hex or ->(_<hex or ->)+ (escaped delimiters between the parts) | Y<2 hex digits> | L<hex or -> (// comment) | B<hex or -> (/* comment */)
   sep   := n | s | t | l | c          (none, space, tab, LF, CRLF)
   text is ASCII, hex-encoded; observations are opaque space-free strings compared for equality.
 -/
@@ -37,6 +37,14 @@ def parseTok? (s : String) : Option Tok :=
   else if s.startsWith "S" then
     match charsOfHex? (body.take 2).toString, charsOfHex? (body.drop 2).toString with
     | some [q], some cs => some (.str q cs)
+    | _, _ => none
+  else if s.startsWith "E" then
+    -- E<2 hex digits of the delimiter><hex seg>_<hex seg>_…_<hex last>  (segments joined by `\q`)
+    match charsOfHex? (body.take 2).toString, ((body.drop 2).toString.splitOn "_").mapM charsOfHex? with
+    | some [q], some parts =>
+        match parts.reverse with
+        | last :: revSegs => some (.strEsc q revSegs.reverse last)
+        | [] => none
     | _, _ => none
   else if s.startsWith "L" then (charsOfHex? body).map .lineComment
   else if s.startsWith "B" then (charsOfHex? body).map .blockComment
